@@ -43,6 +43,32 @@ func (w *World) signerAcct(s int) Acct {
 	}
 }
 
+// genesisAccNum: account numbers assigned by x/auth's InitGenesis (the same for every genesis of this World: the
+// account list is fixed), read once from a scratch node.
+func (w *World) genesisAccNum(g Genesis, addr sdk.AccAddress) uint64 {
+	if w.accNums == nil {
+		sc, _, err := NewNode(w, g)
+		if err != nil {
+			panic(fmt.Sprintf("calibration node: %v", err))
+		}
+		sc.ExecBlock(Block{DtNs: 1_000_000_000}, nil)
+		w.accNums = map[string]uint64{}
+		all := []Acct{w.Admin, w.User}
+		for _, o := range w.Ops {
+			all = append(all, o.Acct)
+		}
+		for _, a := range all {
+			acc := sc.App.AccountKeeper.GetAccount(sc.Ctx(), a.Addr)
+			if acc == nil {
+				panic("calibration: account missing")
+			}
+			w.accNums[a.Addr.String()] = acc.GetAccountNumber()
+		}
+		sc.Close()
+	}
+	return w.accNums[addr.String()]
+}
+
 func (w *World) valStr(t int) string {
 	if t < 0 {
 		return Malformed
@@ -221,7 +247,15 @@ func (n *Node) ExecBlock(b Block, seqBump map[int]uint64) (out BlockOut) {
 	used := map[int]uint64{}
 	for _, tx := range b.Txs {
 		sa := n.W.signerAcct(tx.Signer)
-		acc := n.App.AccountKeeper.GetAccount(n.Ctx(), sa.Addr)
+		var accNum, accSeq uint64
+		if n.Height == 0 {
+			// nothing is committed before block 1: the account numbers InitGenesis assigned are read off a
+			// scratch node with the same genesis that has executed an empty first block
+			accNum = n.W.genesisAccNum(n.G, sa.Addr)
+		} else {
+			acc := n.App.AccountKeeper.GetAccount(n.Ctx(), sa.Addr)
+			accNum, accSeq = acc.GetAccountNumber(), acc.GetSequence()
+		}
 		var msgs []sdk.Msg
 		bad := false
 		for _, m := range tx.Msgs {
@@ -232,10 +266,10 @@ func (n *Node) ExecBlock(b Block, seqBump map[int]uint64) (out BlockOut) {
 			msgs = append(msgs, sm)
 		}
 		_ = bad
-		seq := acc.GetSequence() + used[tx.Signer]
+		seq := accSeq + used[tx.Signer]
 		used[tx.Signer]++
 		txc := n.App.TxConfig()
-		stx, err := simtestutil.GenSignedMockTx(r, txc, msgs, sdk.NewCoins(), 10_000_000, ChainID, []uint64{acc.GetAccountNumber()}, []uint64{seq}, sa.Priv)
+		stx, err := simtestutil.GenSignedMockTx(r, txc, msgs, sdk.NewCoins(), 10_000_000, ChainID, []uint64{accNum}, []uint64{seq}, sa.Priv)
 		if err != nil {
 			panic(fmt.Sprintf("cannot sign: %v", err))
 		}
